@@ -131,4 +131,65 @@ def skeletonT (links : List (List LinkW)) (flags : List Bool) (counts : List Nat
      (if hasSst then [⟨rIdText (n + 3), tSharedStrings, ['s', 'h', 'a', 'r', 'e', 'd', 'S', 't', 'r', 'i', 'n', 'g', 's', '.', 'x', 'm', 'l'], false⟩] else [])⟩,
    ⟨nContentTypes, none, []⟩]
 
+
+/-! ## the whole package (`make_buffer`) for workbooks whose sheets may carry comments AND tables
+
+  A sheet with tables is a sheet of the comments model (`SheetC`) plus the TREES of its table parts (opaque here:
+  `table.rs` is not modelled); its `<worksheet>` has the `<tableParts>` child right after the place of
+  `legacyDrawing`, i.e. at the head of the children that follow it (`postB`).  The package is the one of
+  `assembleC` for these sheets, with the table parts added, the sheet relationship parts carrying the table
+  relationships (`restOfT`) and `[Content_Types].xml` the table Overrides. -/
+
+structure SheetT (N : Type) where
+  c : SheetC N
+  tables : List Node := []
+
+/-- the sheet of the comments model whose written frame has `<tableParts>` after `legacyDrawing` -/
+def SheetT.toC {N} (s : SheetT N) : SheetC N :=
+  { s.c with postB := tablePartsNodes s.c.sheet.links s.c.has s.tables.length ++ s.c.postB }
+
+structure BookT (N : Type) where
+  sheets : List (SheetT N)
+  names : List NameE := []
+  wbFrame : WbFrame := {}
+  app : Node
+  core : Node
+  theme : Node
+  styles : Node
+
+def BookT.toC {N} (b : BookT N) : BookC N :=
+  { sheets := b.sheets.map (·.toC), names := b.names, wbFrame := b.wbFrame, app := b.app, core := b.core, theme := b.theme, styles := b.styles }
+
+/-- the numbers of the table parts, per sheet -/
+def BookT.tnums {N} (b : BookT N) : List (List Nat) := tableNums 0 (b.sheets.map (·.tables.length))
+
+/-- the table parts: the numbers in the order handed out, each with its tree -/
+def tblPartsOf (nums : List Nat) (trees : List Node) : List Part := (nums.zip trees).map fun p => xmlPart (tblPartL p.1) p.2
+
+def relsInputT {N} (an : List (SheetC N × Option (Nat × Nat))) (tn : List (List Nat)) : List (List LinkW × List Node) :=
+  (an.zip tn).map fun p => (p.1.1.sheet.links, restOfT p.1.1.sheet.links p.1.2 p.2)
+
+section
+variable (F : Umya.Num.NumFmt)
+
+def assembleT (b : BookT F.Num) (hasSst : Bool) (roots : List Node) (cmt : List Part) (sst : List Part) : Package :=
+  [xmlPart nApp b.toC.app, xmlPart nCore b.toC.core, xmlPart nRootRels rootRelsNode, xmlPart nTheme b.toC.theme] ++
+  sheetParts 1 roots ++ cmt ++ tblPartsOf b.tnums.flatten (b.sheets.map (·.tables)).flatten ++
+  relsPartsG 1 (relsInputT (annotate b.toC.sheets) b.tnums) ++ sst ++
+  [xmlPart nStyles b.toC.styles,
+   xmlPart nWorkbookPart (workbookNode b.toC.wbFrame (b.toC.sheets.map (·.entry)) b.toC.names),
+   xmlPart nWorkbookRels (workbookRelsNode b.toC.sheets.length (wbRelsRest b.toC.sheets.length hasSst)),
+   xmlPart nContentTypes (contentTypesNodeT b.toC.sheets.length hasSst (vmlNums (annotate b.toC.sheets)) (cmtNums (annotate b.toC.sheets)) b.tnums.flatten)]
+
+/-- `make_buffer` for workbooks whose sheets may carry comments and tables -/
+def writePackageT (b : BookT F.Num) : Option Package :=
+  match renderSheetsP F [] (b.toC.sheets.map (·.toP)) with
+  | none => none
+  | some (tbl, roots) =>
+    match cmtPartsC (annotate b.toC.sheets) with
+    | none => none
+    | some cmt => (sstPartsP tbl).map (assembleT F b (!tbl.isEmpty) roots cmt)
+
+end
+
 end Umya.PackageNode
